@@ -20,7 +20,18 @@ def _with_common(spec, **extra):
     return dict(spec, common=common)
 
 
-def build_route(route, tf, rows, fill=False, lifespan_s=None, ctype=None, spec=None, kw_level=None):
+EMA2 = {"cls": "EMA", "params": {"period": 2}, "common": {}}
+
+
+def _family(member, siblings):
+    """The member under test plus sibling members on OTHER timeframe spellings / spans (each sibling is
+    (timeframe, listed_first)); siblings own their own candle managers and must not matter."""
+    first = [build(_with_common(EMA2, timeframe=s)) for s, before in (siblings or []) if before]
+    last = [build(_with_common(EMA2, timeframe=s)) for s, before in (siblings or []) if not before]
+    return first + [member] + last
+
+
+def build_route(route, tf, rows, fill=False, lifespan_s=None, ctype=None, spec=None, kw_level=None, siblings=None):
     """Returns (subject with .append, manager, view() -> candle list of the manager under test).
     For the indicator / hexital routes `subject.member` is the real Indicator object."""
     spec = spec or EMA3
@@ -41,8 +52,9 @@ def build_route(route, tf, rows, fill=False, lifespan_s=None, ctype=None, spec=N
         return ind, ind.candle_manager, (lambda: ind.candles)
     if route == "hexital_member":
         member = build(_with_common(spec, timeframe=tf))
-        hx = Hexital("sim", candles, [member], timeframe_fill=fill, candles_lifespan=life,
+        hx = Hexital("sim", candles, _family(member, siblings), timeframe_fill=fill, candles_lifespan=life,
                      candlestick_type=ctype)
+        hx.member = member
         key = tf.upper() if tf else "default"
         return hx, hx._candles[key], (lambda: hx.candles(tf) if tf else hx.candles())
     if route == "hexital_level":
@@ -55,8 +67,9 @@ def build_route(route, tf, rows, fill=False, lifespan_s=None, ctype=None, spec=N
         # the member's candles must still be the plain resampling of the raw stream
         level = kw_level
         member = build(_with_common(spec, timeframe=tf))
-        hx = Hexital("sim", candles, [member], timeframe=level, timeframe_fill=fill, candles_lifespan=life,
-                     candlestick_type=ctype)
+        hx = Hexital("sim", candles, _family(member, siblings), timeframe=level, timeframe_fill=fill,
+                     candles_lifespan=life, candlestick_type=ctype)
+        hx.member = member
         return hx, hx._candles[tf.upper()], (lambda: hx.candles(tf))
     raise ValueError(route)
 
@@ -64,6 +77,8 @@ def build_route(route, tf, rows, fill=False, lifespan_s=None, ctype=None, spec=N
 def member_of(route, subject):
     if route == "indicator":
         return subject
+    if getattr(subject, "member", None) is not None:
+        return subject.member
     if route in ("hexital_member", "hexital_level"):
         return next(iter(subject.indicators.values()))
     return None
